@@ -327,6 +327,10 @@ func (P) Gen(r *core.Rand, tier string, emit func([]string)) {
 	if tier == "thorough" {
 		nGate = 120
 	}
+	// the ID alphabet (ids.go): histories over IDs that differ only in case, are prefixes, are empty, ...
+	for i := 0; i < 25*nGate; i++ {
+		emit([]string{"ids " + strconv.FormatUint(r.U64()%1000000, 10) + " " + strconv.Itoa(r.Range(4, 30))})
+	}
 	for i := 0; i < nGate; i++ {
 		emit([]string{"gate " + strconv.FormatUint(r.U64()%1000000, 10) + " " + strconv.Itoa(r.Range(1, 6))})
 	}
